@@ -613,12 +613,18 @@ pub fn run(ctx: &Ctx, rep: &mut Report) {
         let b = format!("{:?}", evaluate(&cfgs[ci], &c, &templates));
         assert_eq!(a, b, "replay observations differ between two runs");
         cases.push(c);
-    } else {
-        let st = explore(|ch| gen(ch, &cfgs, &plan), |_, c| cases.push(c));
-        rep.stats.add(&st);
     }
-    let evals = par_map(&cases, threads(), |_, c| evaluate(&cfgs[c.cfg], c, &templates));
+    // Evaluate in chunks: the thorough tier has ~10^7 terminal states, which are generated,
+    // expanded, judged and dropped chunk by chunk (only counters and violations are kept).
     let mut distinct_where: BTreeSet<String> = BTreeSet::new();
+    let mut conform_inputs: Vec<crate::conform::Input> = Vec::new();
+    let mut process = |rep: &mut Report, cases: &Vec<Case>, distinct_where: &mut BTreeSet<String>, conform_inputs: &mut Vec<crate::conform::Input>| {
+    let evals = par_map(cases, threads(), |_, c| evaluate(&cfgs[c.cfg], c, &templates));
+    for c in cases.iter() {
+        if c.opts.iter().filter(|o| **o != Opt::Absent).count() <= 1 && c.key_on.is_none() {
+            conform_inputs.push(crate::conform::Input { entry: c.entry, attr: c.attr.clone(), item: c.item.clone() });
+        }
+    }
     for (c, e) in cases.iter().zip(evals.iter()) {
         let cfg = &cfgs[c.cfg];
         let text = format!("{} #[derive_ex({})] {}", c.entry.name(), c.attr, c.item);
@@ -684,13 +690,31 @@ pub fn run(ctx: &Ctx, rep: &mut Report) {
             }
         }
     }
+    };
+    if ctx.replay.is_some() {
+        process(rep, &cases, &mut distinct_where, &mut conform_inputs);
+    } else {
+        let mut buf: Vec<Case> = Vec::new();
+        let mut pending: Vec<Vec<Case>> = Vec::new();
+        let st = explore(|ch| gen(ch, &cfgs, &plan), |_, c| {
+            buf.push(c);
+            if buf.len() >= 250_000 {
+                pending.push(std::mem::take(&mut buf));
+            }
+            // chunks are processed as soon as they are complete
+            while let Some(chunk) = pending.pop() {
+                process(rep, &chunk, &mut distinct_where, &mut conform_inputs);
+            }
+        });
+        rep.stats.add(&st);
+        process(rep, &buf, &mut distinct_where, &mut conform_inputs);
+    }
     rep.set("distinct_where_sets_observed", json!(distinct_where.len()));
     rep.set("configurations", json!(cfgs.iter().map(|c| format!("{} ({} levels)", c.name, c.slots.len())).collect::<Vec<_>>()));
     rep.set("max_non_absent_levels", json!(plan.max_dev));
     rep.outcome_n("distinct_where_sets", distinct_where.len() as u64);
     if ctx.replay.is_none() {
         // the complete "<= 1 non-absent level" slice through the real pipeline
-        let inputs: Vec<crate::conform::Input> = cases.iter().filter(|c| c.opts.iter().filter(|o| **o != Opt::Absent).count() <= 1 && c.key_on.is_none()).map(|c| crate::conform::Input { entry: c.entry, attr: c.attr.clone(), item: c.item.clone() }).collect();
-        crate::conform::validate_or_die(rep, "c04p", &inputs);
+        crate::conform::validate_or_die(rep, "c04p", &conform_inputs);
     }
 }
